@@ -102,6 +102,7 @@ def cell_ctx(c):
         st.enter_context(S.max_cholesky_size(0))
         st.enter_context(S.cg_tolerance(1.0))
         st.enter_context(S.eval_cg_tolerance(1.0))
+        st.enter_context(S.max_lanczos_quadrature_iterations(2))   # linear_cg insists on max_tridiag_iter <= max_iter
         st.enter_context(S.max_cg_iterations(2))
     return st
 
@@ -229,6 +230,17 @@ class World:
             memo = {(k[0] if isinstance(k, tuple) else k) for k in getattr(m.variational_strategy, "_memoize_cache", {})}
         return (f"ps={ps};memo={','.join(map(str, order(memo)))};attrs={','.join(order(set(attrs)))};"
                 f"tr={1 if m.training else 0}")
+
+    def memo_ids(self):
+        """(identity of the strategy object, memo name -> identities of the cached values): tells which entries an
+        op (re)created even when the set of names did not change"""
+        if not self.exact:
+            return None, {}
+        strat = self.m.prediction_strategy
+        out = {}
+        for k, v in getattr(strat, "_memoize_cache", {}).items():
+            out.setdefault(k[0] if isinstance(k, tuple) else k, []).append(id(v))
+        return (None if strat is None else id(strat)), {k: tuple(sorted(v)) for k, v in out.items()}
 
     def cache_empty(self):
         k = self.keys()
@@ -372,10 +384,13 @@ def run_history(kind, tokens, seed, compare_all=False):
     for op in parse_ops(tokens):
         was_training = w.m.training
         before_empty = w.cache_empty()
-        ps_before, names_before = memo_names(w.keys())
+        sid_before, ids_before = w.memo_ids()
+        held = [w.m.prediction_strategy] + list(getattr(w.m.prediction_strategy, "_memoize_cache", {}).values()) if w.exact and w.m.prediction_strategy is not None else []
         r = w.apply(op)
         keys = w.keys()
         ps_after, names_after = memo_names(keys)
+        sid_after, ids_after = w.memo_ids()
+        del held   # (kept alive across the op so that ids are not recycled)
         rec = {"token": r["token"], "status": r["status"], "keys": keys, "diff": None, "tol": None,
                "training": was_training, "reused": not before_empty}
         is_taint = op[0] == "Q"
@@ -396,10 +411,10 @@ def run_history(kind, tokens, seed, compare_all=False):
                 rec["skipped_fresh_state"] = True
         # ---- bookkeeping of degraded entries (exact GPs with the default / interpolated strategy only: the SGPR
         #      strategy and the variational strategies compute their memo entries in closed form / by direct Cholesky)
-        if ps_after in ("None", "-") or ps_after != ps_before:
+        if sid_after is None or sid_after != sid_before:      # no strategy object, or a new one
             degraded, root_degraded = set(), False
-        degraded &= names_after
-        created = names_after - names_before if ps_after == ps_before else names_after
+        created = {n for n in names_after if sid_after != sid_before or ids_after.get(n) != ids_before.get(n)}
+        degraded = (degraded & names_after) - created
         if ps_after in ("DefaultPredictionStrategy", "InterpolatedPredictionStrategy") and not was_training:
             if "covar_cache" in created and (r["cell"] == 6 or root_degraded):
                 degraded.add("covar_cache")
